@@ -4,7 +4,7 @@ demo passes on the unchanged tree, patch applies, builds, the 84 baseline tests 
 import json, os, re, subprocess, sys, shutil
 pid, var = sys.argv[1], sys.argv[2]
 src = f'/tmp/mut/{pid}.out/{var}'
-wt = '/tmp/mut/verify'
+wt = os.environ.get('VERIFY_WT', '/tmp/mut/verify')
 env = dict(os.environ, GOFLAGS='-mod=mod', GOPROXY='off', GOSUMDB='off', GOTOOLCHAIN='local')
 def sh(cmd, cwd=wt, check=False):
     return subprocess.run(cmd, shell=True, cwd=cwd, env=env, capture_output=True, text=True)
